@@ -24,6 +24,8 @@ type anteTables struct {
 	SwitchDefault string
 	Plain         []string
 	Disabled      []string
+	SwitchSubject string      // canonical form of what the switch dispatches on
+	SwitchGuard   []string    // conditions under which the extension-option switch is reached
 	Macc          [][2]string // key, permissions joined by ","
 	notes         []string
 }
@@ -64,6 +66,98 @@ func qualify(fset *token.FileSet, imp map[string]string, e ast.Expr) string {
 	return text
 }
 
+// canonText prints an expression with local names replaced by what they stand for (parameters by their
+// canonical names, hoisted locals by their defining expressions), in the layout go/printer gives one-line code.
+func canonText(fset *token.FileSet, e ast.Expr, subst map[string]string) string {
+	list := func(l []ast.Expr) string {
+		var a []string
+		for _, x := range l {
+			a = append(a, canonText(fset, x, subst))
+		}
+		return strings.Join(a, ", ")
+	}
+	switch x := e.(type) {
+	case nil:
+		return ""
+	case *ast.Ident:
+		if t, ok := subst[x.Name]; ok {
+			return t
+		}
+		return x.Name
+	case *ast.BasicLit:
+		return x.Value
+	case *ast.ParenExpr:
+		return "(" + canonText(fset, x.X, subst) + ")"
+	case *ast.SelectorExpr:
+		return canonText(fset, x.X, subst) + "." + x.Sel.Name
+	case *ast.CallExpr:
+		ell := ""
+		if x.Ellipsis.IsValid() {
+			ell = "..."
+		}
+		return canonText(fset, x.Fun, subst) + "(" + list(x.Args) + ell + ")"
+	case *ast.CompositeLit:
+		return canonText(fset, x.Type, subst) + "{" + list(x.Elts) + "}"
+	case *ast.KeyValueExpr:
+		return canonText(fset, x.Key, subst) + ": " + canonText(fset, x.Value, subst)
+	case *ast.UnaryExpr:
+		return x.Op.String() + canonText(fset, x.X, subst)
+	case *ast.StarExpr:
+		return "*" + canonText(fset, x.X, subst)
+	case *ast.BinaryExpr:
+		return canonText(fset, x.X, subst) + " " + x.Op.String() + " " + canonText(fset, x.Y, subst)
+	case *ast.IndexExpr:
+		return canonText(fset, x.X, subst) + "[" + canonText(fset, x.Index, subst) + "]"
+	case *ast.TypeAssertExpr:
+		if x.Type == nil {
+			return canonText(fset, x.X, subst) + ".(type)"
+		}
+		return canonText(fset, x.X, subst) + ".(" + nodeText(fset, x.Type) + ")"
+	}
+	return nodeText(fset, e)
+}
+
+// qualifyCanon: canonText with the leading package qualifier replaced by the import path.
+func qualifyCanon(fset *token.FileSet, imp map[string]string, e ast.Expr, subst map[string]string) string {
+	head := e
+	switch x := e.(type) {
+	case *ast.CallExpr:
+		head = x.Fun
+	case *ast.CompositeLit:
+		head = x.Type
+	}
+	text := canonText(fset, e, subst)
+	switch h := head.(type) {
+	case *ast.SelectorExpr:
+		if id, ok := h.X.(*ast.Ident); ok {
+			if _, local := subst[id.Name]; !local {
+				if p, ok := imp[id.Name]; ok {
+					return p + strings.TrimPrefix(text, id.Name)
+				}
+			}
+		}
+	case *ast.Ident:
+		return "local." + text
+	}
+	return text
+}
+
+// paramSubst names the parameters of a function canonically (by position).
+func paramSubst(ft *ast.FuncType, canon []string, subst map[string]string) {
+	i := 0
+	for _, f := range ft.Params.List {
+		for _, n := range f.Names {
+			if i < len(canon) && n.Name != "_" {
+				subst[n.Name] = canon[i]
+			}
+			i++
+		}
+	}
+}
+
+// extractChains: the decorators of every function that returns sdk.ChainAnteDecorators(...), whether they are
+// written as arguments or collected in a slice literal that is passed with `...`; the function's parameter is
+// called `options`, hoisted locals (evmKeeper := options.EvmKeeper) are replaced by their definitions.
 func extractChains(fset *token.FileSet, f *ast.File) []chain {
 	imp := rawImports(f)
 	var out []chain
@@ -71,6 +165,33 @@ func extractChains(fset *token.FileSet, f *ast.File) []chain {
 		fd, ok := d.(*ast.FuncDecl)
 		if !ok || fd.Body == nil {
 			continue
+		}
+		subst := map[string]string{}
+		if fd.Recv == nil {
+			paramSubst(fd.Type, []string{"options"}, subst)
+		}
+		slices := map[string]*ast.CompositeLit{}
+		for _, st := range fd.Body.List {
+			as, ok := st.(*ast.AssignStmt)
+			if !ok || len(as.Lhs) != 1 || len(as.Rhs) != 1 {
+				continue
+			}
+			id, ok := as.Lhs[0].(*ast.Ident)
+			if !ok {
+				continue
+			}
+			if cl, ok := as.Rhs[0].(*ast.CompositeLit); ok {
+				if _, isSlice := cl.Type.(*ast.ArrayType); isSlice && as.Tok == token.DEFINE {
+					slices[id.Name] = cl
+					continue
+				}
+			}
+			if as.Tok == token.DEFINE {
+				subst[id.Name] = canonText(fset, as.Rhs[0], subst)
+			} else {
+				delete(slices, id.Name) // reassigned: no longer known
+				subst[id.Name] = "<reassigned " + id.Name + ">"
+			}
 		}
 		ast.Inspect(fd.Body, func(n ast.Node) bool {
 			call, ok := n.(*ast.CallExpr)
@@ -82,8 +203,17 @@ func extractChains(fset *token.FileSet, f *ast.File) []chain {
 				return true
 			}
 			c := chain{Name: fd.Name.Name}
-			for _, a := range call.Args {
-				c.Decorators = append(c.Decorators, qualify(fset, imp, a))
+			args := call.Args
+			if call.Ellipsis.IsValid() && len(args) == 1 {
+				if id, ok := args[0].(*ast.Ident); ok && slices[id.Name] != nil {
+					args = slices[id.Name].Elts
+				} else {
+					c.Decorators = append(c.Decorators, "<unresolved: "+nodeText(fset, args[0])+"...>")
+					args = nil
+				}
+			}
+			for _, a := range args {
+				c.Decorators = append(c.Decorators, qualifyCanon(fset, imp, a, subst))
 			}
 			out = append(out, c)
 			return false
@@ -92,102 +222,358 @@ func extractChains(fset *token.FileSet, f *ast.File) []chain {
 	return out
 }
 
-func handlerAssigned(fset *token.FileSet, stmts []ast.Stmt) string {
-	found := ""
-	for _, s := range stmts {
-		ast.Inspect(s, func(n ast.Node) bool {
-			as, ok := n.(*ast.AssignStmt)
-			if !ok || found != "" {
-				return found == ""
-			}
-			for i, l := range as.Lhs {
-				if id, ok := l.(*ast.Ident); ok && id.Name == "anteHandler" && i < len(as.Rhs) {
-					found = nodeText(fset, as.Rhs[i])
-				}
-			}
-			return true
-		})
-	}
-	return found
+// ---- routing of NewAnteHandler: every path of the returned closure, with the conditions it runs under ----
+
+type rcond struct {
+	kind string // "url": text == key (a string); "type": a type assertion on text succeeded; "other"
+	text string
+	key  string
+	pos  bool
 }
 
-func plainBranch(fset *token.FileSet, clause string, stmts []ast.Stmt, cond string, out *[]string) {
-	for _, s := range stmts {
-		switch x := s.(type) {
-		case *ast.AssignStmt:
-			for i, l := range x.Lhs {
-				if id, ok := l.(*ast.Ident); ok && id.Name == "anteHandler" && i < len(x.Rhs) {
-					*out = append(*out, clause+" | "+cond+" | "+nodeText(fset, x.Rhs[i]))
+type route struct {
+	conds   []rcond
+	handler string // "" = the path returns an error
+}
+
+type rstate struct {
+	subst map[string]string
+	conds []rcond
+}
+
+func (s rstate) with(c rcond) rstate {
+	n := rstate{subst: map[string]string{}, conds: append(append([]rcond(nil), s.conds...), c)}
+	for k, v := range s.subst {
+		n.subst[k] = v
+	}
+	return n
+}
+
+type router struct {
+	fset   *token.FileSet
+	consts map[string]string
+	routes []route
+}
+
+func (w *router) strLit(e ast.Expr, st rstate) (string, bool) {
+	switch x := e.(type) {
+	case *ast.BasicLit:
+		if x.Kind == token.STRING {
+			if u, err := strconv.Unquote(x.Value); err == nil {
+				return u, true
+			}
+		}
+	case *ast.Ident:
+		if _, local := st.subst[x.Name]; !local {
+			if v, ok := w.consts[x.Name]; ok {
+				return v, true
+			}
+		}
+	case *ast.ParenExpr:
+		return w.strLit(x.X, st)
+	}
+	return "", false
+}
+
+func (w *router) cond(e ast.Expr, st rstate) rcond {
+	pos := true
+	for {
+		switch x := e.(type) {
+		case *ast.ParenExpr:
+			e = x.X
+			continue
+		case *ast.UnaryExpr:
+			if x.Op == token.NOT {
+				pos = !pos
+				e = x.X
+				continue
+			}
+		}
+		break
+	}
+	if b, ok := e.(*ast.BinaryExpr); ok && (b.Op == token.EQL || b.Op == token.NEQ) {
+		if b.Op == token.NEQ {
+			pos = !pos
+		}
+		if k, ok := w.strLit(b.Y, st); ok {
+			return rcond{"url", canonText(w.fset, b.X, st.subst), k, pos}
+		}
+		if k, ok := w.strLit(b.X, st); ok {
+			return rcond{"url", canonText(w.fset, b.Y, st.subst), k, pos}
+		}
+		return rcond{"other", canonText(w.fset, b.X, st.subst) + " == " + canonText(w.fset, b.Y, st.subst), "", pos}
+	}
+	t := canonText(w.fset, e, st.subst)
+	if strings.HasSuffix(t, ")#1") && strings.Contains(t, ".(") {
+		return rcond{"type", t, "", pos}
+	}
+	return rcond{"other", t, "", pos}
+}
+
+func (w *router) assign(as *ast.AssignStmt, st rstate) {
+	if len(as.Rhs) == 1 && len(as.Lhs) == 2 {
+		if ta, ok := as.Rhs[0].(*ast.TypeAssertExpr); ok {
+			p := canonText(w.fset, ta, st.subst)
+			for i, l := range as.Lhs {
+				if id, ok := l.(*ast.Ident); ok && id.Name != "_" {
+					st.subst[id.Name] = p + "#" + strconv.Itoa(i)
 				}
 			}
-		case *ast.IfStmt:
-			c := nodeText(fset, x.Cond)
-			plainBranch(fset, clause, x.Body.List, "if "+c, out)
-			switch el := x.Else.(type) {
-			case *ast.BlockStmt:
-				plainBranch(fset, clause, el.List, "else "+c, out)
-			case *ast.IfStmt:
-				plainBranch(fset, clause, []ast.Stmt{el}, "else "+c, out)
+			return
+		}
+	}
+	if len(as.Rhs) == len(as.Lhs) {
+		var vals []string
+		for _, r := range as.Rhs {
+			vals = append(vals, canonText(w.fset, r, st.subst))
+		}
+		for i, l := range as.Lhs {
+			if id, ok := l.(*ast.Ident); ok && id.Name != "_" {
+				st.subst[id.Name] = vals[i]
 			}
-		case *ast.BlockStmt:
-			plainBranch(fset, clause, x.List, cond, out)
+		}
+		return
+	}
+	for _, l := range as.Lhs {
+		if id, ok := l.(*ast.Ident); ok && id.Name != "_" {
+			st.subst[id.Name] = "<" + nodeText(w.fset, as) + ">"
 		}
 	}
 }
 
+func (w *router) walk(stmts []ast.Stmt, st rstate, k func(rstate)) {
+	if len(stmts) == 0 {
+		k(st)
+		return
+	}
+	rest := func(st rstate) { w.walk(stmts[1:], st, k) }
+	flip := func(c rcond) rcond { c.pos = !c.pos; return c }
+	switch s := stmts[0].(type) {
+	case *ast.AssignStmt:
+		w.assign(s, st)
+		rest(st)
+	case *ast.BlockStmt:
+		w.walk(s.List, st, rest)
+	case *ast.IfStmt:
+		if in, ok := s.Init.(*ast.AssignStmt); ok {
+			st = st.with(rcond{})
+			st.conds = st.conds[:len(st.conds)-1]
+			w.assign(in, st)
+		}
+		c := w.cond(s.Cond, st)
+		w.walk(s.Body.List, st.with(c), rest)
+		switch el := s.Else.(type) {
+		case nil:
+			rest(st.with(flip(c)))
+		case *ast.BlockStmt:
+			w.walk(el.List, st.with(flip(c)), rest)
+		case *ast.IfStmt:
+			w.walk([]ast.Stmt{el}, st.with(flip(c)), rest)
+		}
+	case *ast.SwitchStmt:
+		if in, ok := s.Init.(*ast.AssignStmt); ok {
+			st = st.with(rcond{})
+			st.conds = st.conds[:len(st.conds)-1]
+			w.assign(in, st)
+		}
+		subject := canonText(w.fset, s.Tag, st.subst)
+		hasDefault := false
+		for _, cl := range s.Body.List {
+			cc := cl.(*ast.CaseClause)
+			if cc.List == nil {
+				hasDefault = true
+				w.walk(cc.Body, st.with(rcond{"url", subject, "*", false}), rest)
+				continue
+			}
+			for _, e := range cc.List {
+				key, ok := w.strLit(e, st)
+				if !ok {
+					key = "<" + canonText(w.fset, e, st.subst) + ">"
+				}
+				w.walk(cc.Body, st.with(rcond{"url", subject, key, true}), rest)
+			}
+		}
+		if !hasDefault {
+			rest(st.with(rcond{"url", subject, "*", false}))
+		}
+	case *ast.TypeSwitchStmt:
+		subj := "?"
+		switch a := s.Assign.(type) {
+		case *ast.ExprStmt:
+			if ta, ok := a.X.(*ast.TypeAssertExpr); ok {
+				subj = canonText(w.fset, ta.X, st.subst)
+			}
+		case *ast.AssignStmt:
+			if ta, ok := a.Rhs[0].(*ast.TypeAssertExpr); ok {
+				subj = canonText(w.fset, ta.X, st.subst)
+			}
+		}
+		hasDefault := false
+		for _, cl := range s.Body.List {
+			cc := cl.(*ast.CaseClause)
+			if cc.List == nil {
+				hasDefault = true
+				w.walk(cc.Body, st.with(rcond{"type", subj + ".(*)#1", "*", false}), rest)
+				continue
+			}
+			for _, e := range cc.List {
+				w.walk(cc.Body, st.with(rcond{"type", subj + ".(" + nodeText(w.fset, e) + ")#1", "", true}), rest)
+			}
+		}
+		if !hasDefault {
+			rest(st.with(rcond{"type", subj + ".(*)#1", "*", false}))
+		}
+	case *ast.ReturnStmt:
+		r := route{conds: st.conds}
+		if len(s.Results) == 1 {
+			if c, ok := s.Results[0].(*ast.CallExpr); ok {
+				r.handler = canonText(w.fset, c.Fun, st.subst)
+			}
+		}
+		w.routes = append(w.routes, r)
+	default: // declarations, defers, logging
+		rest(st)
+	}
+}
+
+// the model's name for the value the extension-option switch dispatches on (Model/Ante.v ref_switch_on)
+var legacySubject = map[string]string{
+	"tx.(authante.HasExtensionOptionsTx)#0.GetExtensionOptions()[0].GetTypeUrl()": "typeURL := opts[0].GetTypeUrl(); typeURL",
+}
+
+func condText(c rcond) string {
+	t := c.text
+	if c.kind == "url" {
+		t = c.text + " == " + strconv.Quote(c.key)
+	}
+	if !c.pos {
+		return "!(" + t + ")"
+	}
+	return t
+}
+
 func extractSwitch(fset *token.FileSet, f *ast.File, t *anteTables) {
+	w := &router{fset: fset, consts: map[string]string{}}
+	for _, d := range f.Decls {
+		if gd, ok := d.(*ast.GenDecl); ok && gd.Tok == token.CONST {
+			for _, sp := range gd.Specs {
+				vs := sp.(*ast.ValueSpec)
+				for i, n := range vs.Names {
+					if i < len(vs.Values) {
+						if bl, ok := vs.Values[i].(*ast.BasicLit); ok && bl.Kind == token.STRING {
+							if u, err := strconv.Unquote(bl.Value); err == nil {
+								w.consts[n.Name] = u
+							}
+						}
+					}
+				}
+			}
+		}
+	}
 	for _, d := range f.Decls {
 		fd, ok := d.(*ast.FuncDecl)
 		if !ok || fd.Body == nil || fd.Name.Name != "NewAnteHandler" {
 			continue
 		}
+		var fl *ast.FuncLit
 		ast.Inspect(fd.Body, func(n ast.Node) bool {
-			switch sw := n.(type) {
-			case *ast.SwitchStmt:
-				hdr := nodeText(fset, sw.Tag)
-				if sw.Init != nil {
-					hdr = nodeText(fset, sw.Init) + "; " + hdr
+			if r, ok := n.(*ast.ReturnStmt); ok && fl == nil && len(r.Results) > 0 {
+				if x, ok := r.Results[0].(*ast.FuncLit); ok {
+					fl = x
 				}
-				if t.SwitchOn != "" {
-					t.SwitchOn += " || " + hdr
-				} else {
-					t.SwitchOn = hdr
-				}
-				for _, c := range sw.Body.List {
-					cc := c.(*ast.CaseClause)
-					h := handlerAssigned(fset, cc.Body)
-					if cc.List == nil {
-						t.SwitchDefault = h
-						continue
-					}
-					for _, e := range cc.List {
-						key := nodeText(fset, e)
-						if bl, ok := e.(*ast.BasicLit); ok && bl.Kind == token.STRING {
-							if u, err := strconv.Unquote(bl.Value); err == nil {
-								key = u
-							}
-						}
-						t.Switch = append(t.Switch, [2]string{key, h})
-					}
-				}
-				return false
-			case *ast.TypeSwitchStmt:
-				for _, c := range sw.Body.List {
-					cc := c.(*ast.CaseClause)
-					name := "default"
-					if cc.List != nil {
-						var ts []string
-						for _, e := range cc.List {
-							ts = append(ts, nodeText(fset, e))
-						}
-						name = "case " + strings.Join(ts, ", ")
-					}
-					plainBranch(fset, name, cc.Body, "always", &t.Plain)
-				}
-				return false
 			}
-			return true
+			return fl == nil
 		})
+		if fl == nil {
+			t.notes = append(t.notes, "NewAnteHandler does not return a function literal")
+			continue
+		}
+		st := rstate{subst: map[string]string{}}
+		paramSubst(fd.Type, []string{"options"}, st.subst)
+		paramSubst(fl.Type, []string{"ctx", "tx", "sim"}, st.subst)
+		w.walk(fl.Body.List, st, func(rstate) {
+			w.routes = append(w.routes, route{handler: "<falls off the end>"})
+		})
+	}
+	// tables in the form of Model/Ante.v
+	subject := ""
+	seenPlain := map[string]bool{}
+	defaultSeen := false
+	for _, r := range w.routes {
+		firstURL, posURL := -1, -1
+		for i, c := range r.conds {
+			if c.kind == "url" {
+				if firstURL < 0 {
+					firstURL = i
+				}
+				if c.pos && posURL < 0 {
+					posURL = i
+				}
+			}
+		}
+		call := ""
+		if r.handler != "" {
+			call = r.handler
+		}
+		switch {
+		case posURL >= 0: // a case of the extension-option switch
+			c := r.conds[posURL]
+			if subject == "" {
+				subject = c.text
+				for _, g := range r.conds[:firstURL] {
+					t.SwitchGuard = append(t.SwitchGuard, condText(g))
+				}
+			} else if subject != c.text {
+				subject += " || " + c.text
+			}
+			t.Switch = append(t.Switch, [2]string{c.key, call})
+		case firstURL >= 0: // no case matched: the default
+			if defaultSeen && t.SwitchDefault != call {
+				t.SwitchDefault += " || " + call
+			} else {
+				t.SwitchDefault = call
+			}
+			defaultSeen = true
+		case r.handler != "": // no extension option: the plain branch
+			lastType := -1
+			for i, c := range r.conds {
+				if c.kind == "type" && !strings.Contains(subject, strings.TrimSuffix(c.text, "#1")+"#0") {
+					lastType = i
+				}
+			}
+			clause, cond := "always", "always"
+			if lastType >= 0 {
+				c := r.conds[lastType]
+				ty := c.text[strings.LastIndex(c.text, ".(")+2 : len(c.text)-len(")#1")]
+				switch {
+				case c.key == "*":
+					clause = "default"
+				case c.pos:
+					clause = "case " + ty
+				default:
+					clause = "!case " + ty
+				}
+			}
+			if lastType+1 < len(r.conds) && lastType >= 0 {
+				in := r.conds[len(r.conds)-1]
+				if in.pos {
+					cond = "if " + in.text
+				} else {
+					cond = "else " + in.text
+				}
+			}
+			e := clause + " | " + cond + " | " + call
+			if !seenPlain[e] {
+				seenPlain[e] = true
+				t.Plain = append(t.Plain, e)
+			}
+		}
+	}
+	t.SwitchSubject = subject
+	if l, ok := legacySubject[subject]; ok {
+		t.SwitchOn = l
+	} else {
+		t.SwitchOn = subject
 	}
 }
 
@@ -351,6 +737,9 @@ func anteModule(repo string) (string, bool) {
 		names = append(names, fmt.Sprintf("(%s, gen_chain_%s)", q(c.Name), id))
 	}
 	fmt.Fprintf(&b, "Definition gen_chains : list (string * list string) := [ %s ].\n\n", strings.Join(names, "; "))
+	fmt.Fprintf(&b, "(* the value the extension-option dispatch compares (locals replaced by their definitions; closure parameters ctx, tx, sim),\n   the conditions under which the dispatch is reached, and the model's name for that value *)\n")
+	fmt.Fprintf(&b, "Definition gen_switch_subject : string := %s.\n", q(t.SwitchSubject))
+	fmt.Fprintf(&b, "Definition gen_switch_guard : list string := %s.\n", lst(t.SwitchGuard))
 	fmt.Fprintf(&b, "Definition gen_switch_on : string := %s.\n", q(t.SwitchOn))
 	var sw []string
 	for _, p := range t.Switch {
